@@ -163,6 +163,7 @@ impl Prop for C05 {
 
 	fn exec(&self, scn: &Scn) -> Outcome {
 		let mut out = Outcome::default();
+		crate::capture::HUMAN_READABLE.with(|h| h.set((None, None)));
 		container::count_scale(&scn.spec, &mut out);
 		let expanded = scn.spec.expanded();
 		let spec = &*expanded;
@@ -320,6 +321,17 @@ impl Prop for C05 {
 						format!("{}: shape {} (expected {} values); first difference at {:?}", kind.label(), r.shape(), model.len(), got.iter().zip(&model).position(|(a, b)| !crate::val::eq_modulo_mask(a, b))),
 					);
 					break;
+				}
+			}
+		}
+		// the writer's serializer and the reader's deserializer describe ONE format: a caller's type that chooses its
+		// representation by is_human_readable() (std's IpAddr / SocketAddr, uuid, chrono, url ...) must be told the same
+		// thing on both sides, or what it writes is not what it reads
+		if !out.failed() {
+			if let (Some(ser), Some(de)) = crate::capture::HUMAN_READABLE.with(|h| h.get()) {
+				out.count("is_human_readable_compared", 1);
+				if ser != de {
+					out.fail("C05:serializer-and-deserializer-disagree-on-is_human_readable", format!("the serializer says {ser}, the deserializer says {de}"));
 				}
 			}
 		}
